@@ -45,4 +45,46 @@ def runX (env : Env) (cfg : Cfg) (n : Node) (xs : List OpX) : Node := xs.foldl (
 def ReachableX (env : Env) (cfg : Cfg) (n : Node) : Prop :=
   ∃ xs : List OpX, (∀ x ∈ xs, x.WF) ∧ n = runX env cfg Node.empty xs
 
+
+/-! ### the converse interleaving: a sync round committing inside block production
+
+`TransactionsPool.Validate` reads the last block's timestamp and transactions and the confirmed outputs, selects
+transactions against them, and only then calls `Blockchain.AddBlock`; the chain lock is not held in between, so a sync
+round may commit in between.  `produceOn r w` is block production whose reads saw ledger `r` and whose final `AddBlock`
+acts on ledger `w` (`produceOn l l` is `produce`, `produce_eq_produceOn`).  This interleaving is NOT simulated by a
+sequential history: `Core/Props/Cinter.lean` proves a concrete counterexample (the known finding of C16). -/
+
+namespace Node
+
+def produceOn (env : Env) (cfg : Cfg) (r w : Ledger) (ts : Int) (perm : List Tx) (rewardId : String) : Option Ledger :=
+  let last := r.lastTs
+  let next := last + cfg.interval
+  let genesis := last == 0
+  if !genesis && last == ts then none
+  else if !genesis && ts > next then none
+  else
+    match r.utxos.update r.lastTxs next with
+    | .error _ => none
+    | .ok copy =>
+      let (kept, fees, _) := produceLoop env cfg r.utxos ts last next perm copy (if genesis then cfg.genesis else 0) []
+      let newAddrs := (if genesis then [cfg.validator] else []) ++ yieldingAddrs kept
+      let rtx := rewardTx rewardId cfg.validator genesis ts fees
+      match w.addBlock env ts (kept ++ [rtx]) newAddrs with
+      | .error _ => none
+      | .ok led' => some led'
+
+end Node
+
+/-- a tick (reads on the node's ledger) inside which the sync round `now resps pick` commits before `AddBlock` -/
+def stepTickSync (env : Env) (cfg : Cfg) (n : Node) (ts : Int) (perm : List Tx) (rewardId : String)
+    (now : Int) (resps : List Resp) (pick : Nat) : Node :=
+  if perm.isPerm n.pool then
+    match (Sync.outcomes env cfg n.led now resps)[pick]? with
+    | some l' =>
+      match Node.produceOn env cfg n.led l' ts perm rewardId with
+      | some led => ⟨led, []⟩
+      | none => { n with led := l' }
+    | none => step env cfg n (.tick ts perm rewardId)
+  else n
+
 end Ru
